@@ -757,9 +757,18 @@ fn shapes(m: &Model, ctx: &mut Ctx) {
             e.insert("extensible".to_string(), Val::none());
             Val::Ctor("Enumerated".into(), vec![Val::Ctor("Enumerated".into(), vec![], e)], BTreeMap::new())
         };
+        let elsewhere_in = |module: Option<&str>, id: &str| {
+            let mut e = BTreeMap::new();
+            e.insert("identifier".to_string(), Val::Str(id.into()));
+            e.insert("module".to_string(), module.map(|x| Val::some(Val::Str(x.into()))).unwrap_or(Val::none()));
+            e.insert("parent".to_string(), Val::none());
+            e.insert("constraints".to_string(), Val::List(vec![]));
+            Val::Ctor("ElsewhereDeclaredType".into(), vec![Val::Ctor("DeclarationElsewhere".into(), vec![], e)], BTreeMap::new())
+        };
         let elsewhere = |id: &str| {
             let mut e = BTreeMap::new();
             e.insert("identifier".to_string(), Val::Str(id.into()));
+            e.insert("module".to_string(), Val::none());
             e.insert("parent".to_string(), Val::none());
             e.insert("constraints".to_string(), Val::List(vec![]));
             Val::Ctor("ElsewhereDeclaredType".into(), vec![Val::Ctor("DeclarationElsewhere".into(), vec![], e)], BTreeMap::new())
@@ -796,6 +805,10 @@ fn shapes(m: &Model, ctx: &mut Ctx) {
             ("anonymous ENUMERATED { not-started, in-progress }", enumerated(&["not-started", "in-progress"]), "\"not-started\"|\"in-progress\""),
             ("anonymous ENUMERATED { a }", enumerated(&["a"]), "\"a\""),
             ("type reference My-Type", elsewhere("My-Type"), "My_Type"),
+            // "every type name it mentions is declared in the namespace or imported": a reference written `Mod-B.Width` names the
+            // type inside the namespace of that module (the bare name is neither declared nor imported where it is used)
+            ("qualified type reference Mod-B.My-Type", elsewhere_in(Some("Mod-B"), "My-Type"), "Mod_B.My_Type"),
+            ("SEQUENCE OF Mod-B.My-Type", seq_of("SequenceOf", elsewhere_in(Some("Mod-B"), "My-Type")), "Mod_B.My_Type[]"),
             ("SEQUENCE OF BOOLEAN", seq_of("SequenceOf", unit("Boolean")), "boolean[]"),
             ("SET OF My-Type", seq_of("SetOf", elsewhere("My-Type")), "My_Type[]"),
             ("SEQUENCE OF ENUMERATED { x-y, z }", seq_of("SequenceOf", enumerated(&["x-y", "z"])), "(\"x-y\"|\"z\")[]"),
